@@ -201,11 +201,11 @@ class KaniRun:
             errs = '\n'.join(m.group(0) for m in re.finditer(r'(?m)^error.*(?:\n(?!warning|error).*){0,12}', out))[:6000]
             raise Undecided(f'kani build of the injected crate failed ({reason or rc}):\n{errs}')
 
-    def run_harness(self, u, hname, playback=False, timeout=None):
+    def run_harness(self, u, hname, playback=False, timeout=None, solver_override=None):
         h = u.harness[hname]
         cmd = ['cargo', 'kani', '--harness', u.full(hname), '--exact'] + KANI_Z
         tail = []
-        solver = h.get('solver')
+        solver = solver_override or h.get('solver')
         if solver == 'cvc5':
             # cvc5 through CBMC's bit-vector (Boolector-flavour) SMT2 output; see vx/smtwrap
             tail = ['-Z', 'unstable-options', '--cbmc-args', '--boolector', '--external-smt2-solver', os.path.join(VERIF, 'vx', 'smtwrap')]
